@@ -92,6 +92,11 @@ CLAIMED = {
             'Hybrid images by construction (isolinux-signature boot file, 0-2 EFI entries, drawn geometry 1..63 x 1..256, partition entry/offset/type, mbr id, efi/mac, edits after add_isohybrid, reopen) are decoded by vf/indep/hybrid.py and validated against facts from the independent ISO9660/El Torito reader: signature, single active partition with CHS/LBA covering the cylinder-padded image, boot file address, GPT CRCs and primary/backup mirror, EFI/Mac partitions and APM entries delimiting the El Torito images, no overlap of the backup GPT with the volume; bytes from 32 KiB to the volume end must equal the non-hybrid image of the same history.',
             'Either assignment of two 0xef images to the EFI and Mac roles is accepted (interpretation).',
             'DESIGN.md section 3, C12'),
+    'C07': ('exploration',
+            'stateful / model-based property testing (Hypothesis): generated link/unlink/remove/boot interleavings with an invariant checked after every step on the mastered image',
+            'Programs from the links profile (add_fp incl. empty files, add_hard_link across all namespace pairs and from the boot catalog, rm_hard_link, rm_file via each namespace, add/rm_eltorito, reopen) are executed step by step; after every applied edit the image is mastered and decoded independently: file names per namespace must equal the reference model, all names of one content must point at sectors holding its bytes, distinct contents must not share sectors, nothing may overlap, and no sector may stay allocated once the last reference (name or El Torito entry) is gone.',
+            'Documented looseness for zero-byte files is modelled as an interval. Per-step mastering is assumed not to disturb the object (C06).',
+            'DESIGN.md section 3, C07'),
 }
 
 NOT_YET = 'check not built yet in this session (work in progress; see DESIGN.md section 9 for the order)'
